@@ -456,3 +456,123 @@ def C14(tier):
              "granularity for Elias), 1-3 byte/bit mutations, random strings of 0-64 and up to 4096 bytes, structured hostile headers "
              "(counts 2^61..2^64-1 that wrap count*width, dictionary sizes at/over the cap, Elias prefixes > 64 bits, bitmap type bytes "
              "and cardinalities far beyond the input, cut run varints); distinct = seeded case (entry point x kind), counted on rel")
+
+
+# --------------------------------------------------------------------------- C15
+WORLDS = {0: "identity order, fresh process", 1: "shuffled order", 2: "each call preceded by 1-3 other library calls",
+          3: "stack painted 0x00", 4: "stack painted 0xFF", 5: "stack painted 0xA5", 6: "stack painted with the call's element count",
+          7: "heap residue: freed blocks filled with the element count", 8: "heap residue: M_PERTURB + 0xFF-filled destinations"}
+
+
+def _c15_name_divergence(c, ref, other, shard):
+    """Re-run both runs of one shard with per-call digests and name the first diverging call."""
+    import subprocess
+    outs = []
+    for r in (ref, other):
+        cmd = [r.exe] + r.base_args + ["--shard", str(shard), "--p1", "1"]
+        e = dict(__import__("os").environ)
+        e.update(core.SAN_ENV)
+        p = subprocess.run(cmd, stdout=subprocess.PIPE, stderr=subprocess.DEVNULL, env=e, timeout=1800)
+        d = {}
+        for line in p.stdout.decode("utf-8", "replace").splitlines():
+            if line.startswith("CALLDIG "):
+                _, ci, hx, nm = line.split(" ", 3)
+                d[int(ci)] = (hx, nm)
+        outs.append(d)
+    for ci in sorted(outs[0]):
+        if ci in outs[1] and outs[0][ci][0] != outs[1][ci][0]:
+            return ci, outs[0][ci][1]
+    return -1, "unknown"
+
+
+def C15(tier):
+    c = Check("C15", tier)
+    n = sz(tier, 20_000, 1_000_000)
+    count = per_shard(n)
+    specs = []
+    for cfg, worlds, shards in (("rel", range(9), None), ("dbg", range(9), [0, 1]), ("clang", (0, 1, 6, 7), [2, 3]),
+                                ("asan", (0, 2, 6), [4, 5]), ("msan", (0, 6), sz(tier, [6, 7], [6, 7, 8, 9]))):
+        for w in worlds:
+            specs.append((cfg, w, c.spec("calls-%s-w%d" % (cfg, w), cfg, "drv_history", "c15", count, shards=shards, params=[w, 0], timeout=2400)))
+    if tier == T:
+        specs.append(("vg", 0, c.spec("calls-memcheck-w0", "dbg", "drv_history", "c15", max(50, count // 50), shards=[10, 11], params=[0, 0], timeout=3500,
+                                      wrapper=["valgrind", "-q", "--error-exitcode=97", "--undef-value-errors=yes", "--track-origins=no"])))
+    c.go()
+    ref = specs[0][2].run
+    ncmp = 0
+    for cfg, w, h in specs[1:]:
+        if cfg == "vg":
+            continue
+        o = h.run
+        for s, r in o.shards.items():
+            a = ref.shards.get(s)
+            if not a or a.done is None or r.done is None or a.crashes or r.crashes:
+                continue
+            if "calls" in a.digests and "calls" in r.digests:
+                ncmp += 1
+                if a.digests["calls"] != r.digests["calls"]:
+                    ci, nm = _c15_name_divergence(c, ref, o, s)
+                    key = "C15:%s:result-differs-between-%s" % (nm, "worlds" if cfg == "rel" else "worlds-or-builds")
+                    c.violation(key, dict(driver="drv_history", cfg=o.cfg, mode="c15", seed=o.seed, shard=s, args=o.base_args + ["--shard", str(s)],
+                                          build_kw=o.build_kw, case=-1,
+                                          detail="call %d (%s): digest in %s world %d (%s) differs from rel world 0" % (ci, nm, cfg, w, WORLDS[w])))
+    c.stats["digest_comparisons"] = ncmp
+    c.require("digest_comparisons", ncmp, 40)
+    c.require("calls", c.stat("c15_calls"), 100000)
+    c.extra["worlds"] = {str(k): v for k, v in WORLDS.items()}
+    c.assumptions = ["call i is a function of (seed, i) only; in/out metadata structs are passed zeroed (the API reads them)",
+                     "MSan: every library output the harness digests is first checked with __msan_check_mem_is_initialized; output-only metadata structs are MSan-poisoned before the call"]
+    c.finish(c.stat("c15_calls"), c.extra["per_cfg"].get("distinct_nontrivial@rel", 0) // 9,
+             "a list of calls covering every codec variant of codecs.h (encode, decode, random access) plus 14 further API groups "
+             "(float, bitmap algebra + serialise, dictionary stats/reuse, adaptive analysis, FOR/PFOR analysis, RLE/BP128 helpers, group, "
+             "PFOR ReadMeta, BP128 delta meta) executed in 9 worlds (order, preceding calls, stack painting incl. the call's own count, "
+             "heap residue); per-shard digests of per-call results must be identical across worlds and across gcc -O2/-O0/clang/ASan/MSan "
+             "builds; MSan reports and crashes in any world are violations; non-trivial = calls that take a metadata struct or allocate; "
+             "distinct calls counted once (rel, all worlds / 9)")
+
+
+# --------------------------------------------------------------------------- C17
+def C17(tier):
+    c = Check("C17", tier)
+    rounds = sz(tier, 30, 200)
+    tsan_env = {"TSAN_OPTIONS": "halt_on_error=0:exitcode=0:report_signal_unsafe=0:history_size=4"}
+    handles = []
+    for T_ in (2, 4, 8, 16):
+        handles.append(c.spec("threads-tsan-%d" % T_, "tsan", "drv_threads", "c17", 1, nshards=4, shards=sz(tier, [0, 1], [0, 1, 2, 3]),
+                              params=[T_, rounds], env=tsan_env, timeout=3000))
+        handles.append(c.spec("threads-rel-%d" % T_, "rel", "drv_threads", "c17", 1, nshards=4, shards=[0, 1, 2, 3], params=[T_, rounds * 4], timeout=3000))
+    handles.append(c.spec("threads-dbg-8", "dbg", "drv_threads", "c17", 1, nshards=4, shards=[0], params=[8, rounds], timeout=3000))
+    if tier == T:
+        handles.append(c.spec("threads-helgrind-4", "dbg", "drv_threads", "c17", 1, nshards=4, shards=[0], params=[4, 2], timeout=3400,
+                              wrapper=["valgrind", "-q", "--tool=helgrind", "--history-level=approx"]))
+    c.go()
+    nreports = 0
+    harness_only = 0
+    for h in handles:
+        for s, r in h.run.shards.items():
+            for tool, kind, repo_funcs, allf in r.reports:
+                nreports += 1
+                if repo_funcs:
+                    key = "C17:%s:data-race(%s)" % ("|".join(repo_funcs), tool)
+                    c.violation(key, dict(driver="drv_threads", cfg=h.run.cfg, mode="c17", seed=h.run.seed, shard=s, args=h.run.base_args + ["--shard", str(s)],
+                                          build_kw=h.run.build_kw, env=h.run.env, wrapper=h.run.wrapper, case=-1,
+                                          detail="%s: %s; library frames %s; stack %s" % (tool, kind, list(repo_funcs), list(allf))))
+                else:
+                    harness_only += 1
+    c.stats["race_reports_total"] = nreports
+    c.stats["race_reports_without_library_frame"] = harness_only
+    if harness_only:
+        c.inconclusive.append("%d race report(s) with no frame in %s/src (harness or runtime): monitor not trustworthy for this run" % (harness_only, core.REPO))
+    total_ops = c.maxes.get("c17_ops_total", 0)
+    c.require("ops_that_overlapped_themselves", c.maxes.get("c17_ops_that_overlapped_themselves", 0), total_ops,
+              "(every op must have been observed running concurrently with itself in at least one process)")
+    c.require("distinct_overlapping_pairs", c.maxes.get("c17_distinct_overlapping_pairs", 0), 300)
+    c.require("calls_overlapping_another", c.stat("c17_calls_overlapping_another"), 10000)
+    c.assumptions = ["TSan's happens-before analysis over the schedules actually produced approximates 'all interleavings'; the overlap matrix says what was produced",
+                     "shared inputs are read-only after setup; outputs, packed arrays and bitstreams are thread-private (the documented contract)"]
+    c.finish(c.stat("c17_calls"), c.maxes.get("c17_distinct_overlapping_pairs", 0),
+             "2/4/8/16 threads x rounds; %d ops (every codec variant encode/decode/random access, scalar families, in-place add, float, "
+             "a shared const dictionary, packed arrays and bitstreams on private storage) over 6 shared read-only inputs; lock-step rounds "
+             "(barrier after every op: all threads inside the same function) alternate with permuted rounds; yields/sleeps injected between "
+             "calls; every result compared with its sequential reference; TSan reports parsed per shard and de-duplicated by library entry "
+             "points; distinct_nontrivial = distinct (op, op') pairs observed overlapping in one process (max over processes)" % total_ops)
